@@ -274,6 +274,14 @@ func (l *loader) loadNodeInterface(pNodeInt *acmelibv1.NodeInterface) (*NodeInte
 		return nil, err
 	}
 
+	// an interface is attached to one bus and is saved under that bus only
+	if nodeInt.hasParentBus() {
+		return nil, &EntityIDError{
+			EntityID: EntityID(pNodeInt.NodeEntityId),
+			Err:      ErrIsDuplicated,
+		}
+	}
+
 	for _, pMsg := range pNodeInt.Messages {
 		msg, err := l.loadMessage(pMsg)
 		if err != nil {
